@@ -8,7 +8,9 @@
    (2 limit ((0 t)|(1 t p)|(2 t) ...) (outcome...) peak gathers dones n503)
         a scripted schedule of concurrent requests against a blocking gatherer
    (3 limit reqs n200 n503 peak gathers dones)
-        free-running concurrent requests (specification only) *)
+        free-running concurrent requests (specification only)
+   (4 ((own_gathering own_encoding ()|((gathering encoding)))...))
+        several handlers on different registries in one process (specification only) *)
 From Coq Require Import ZArith List Bool.
 From Verif Require Import Base.F64 Base.Str Base.Sx Model.Handler.
 Import ListNotations.
@@ -123,6 +125,11 @@ Definition check (s : sx) : Z :=
                (zs_eqb (sem_outcomes limit sem0 evs) outs && (m_peak m =? peak) && (m_gathers m =? gathers) &&
                 (m_dones m =? dones) && (m_503 m =? n503))
       | _, _ => code_decode_error
+      end
+  | SL [SZ 4; hs] =>
+      match dL (dT3 dZ dZ (dOpt (dP dZ dZ))) hs with
+      | Some hs => both (spec_counters_own hs) true
+      | None => code_decode_error
       end
   | SL [SZ 3; SZ limit; SZ reqs; SZ n200; SZ n503; SZ peak; SZ gathers; SZ dones] =>
       both (spec_conc limit reqs n200 n503 peak gathers dones) true
